@@ -77,8 +77,10 @@ impl<'a, R: Read> Reader<'a, R> {
         schemata: Option<Vec<&'a Schema>>,
         #[builder(default = is_human_readable())] human_readable: bool,
     ) -> AvroResult<Reader<'a, R>> {
-        let schemata =
-            schemata.unwrap_or_else(|| reader_schema.map(|rs| vec![rs]).unwrap_or_default());
+        // The reader schema is not among the schemata the writer schema is parsed and decoded
+        // with: a named type it shares with the writer schema would replace the writer's own
+        // definition wherever the writer schema refers to it by name.
+        let schemata = schemata.unwrap_or_default();
 
         let block = Block::new(reader, schemata, human_readable)?;
         let mut reader = Reader {
